@@ -175,6 +175,57 @@ std::string handle(const std::string& op, Args& a)
 			o << v << r.calls << r.mn << r.mx;
 		});
 	}
+	if(op == "c14.fhist2" || op == "c14.fhist3")
+	{
+		// class D through the front ends: target call after earlier calls on the IDENTICAL limits and method (other
+		// integrands/budgets/seeds) vs the same call first in a fresh process
+		int d			   = op == "c14.fhist2" ? 2 : 3;
+		std::string method = a.tok();
+		struct F
+		{
+			unsigned seed;
+			int n, fid;
+			std::vector<double> p;
+		};
+		F tgt;
+		tgt.seed = (unsigned) a.u64();
+		std::vector<double> lim;
+		for(int i = 0; i < 2 * d; i++)
+			lim.push_back(a.dbl());
+		tgt.n	= (int) a.i64();
+		tgt.fid = (int) a.i64();
+		tgt.p	= a.dbls();
+		size_t nh = a.u64();
+		std::vector<F> hist(nh);
+		for(auto& h : hist)
+		{
+			h.seed = (unsigned) a.u64();
+			h.n	   = (int) a.i64();
+			h.fid  = (int) a.i64();
+			h.p	   = a.dbls();
+		}
+		a.end();
+		auto front = [&](const F& f, Rec& r) {
+			r.init(d);
+			g_seed = f.seed;
+			if(d == 2)
+				return Integrate_2D([&](double x, double y) { double xx[2] = {x, y}; r.see(xx); return fam(f.fid, 2, xx, f.p); }, lim[0], lim[1], lim[2], lim[3], method, f.n);
+			return Integrate_3D([&](double x, double y, double z) { double xx[3] = {x, y, z}; r.see(xx); return fam(f.fid, 3, xx, f.p); }, lim[0], lim[1], lim[2], lim[3], lim[4], lim[5], method, f.n);
+		};
+		std::string fresh = run_forked([&](Out& o) { Rec r; double v = front(tgt, r); o << v << r.calls; });
+		std::string after = run_forked([&](Out& o) {
+			Rec r;
+			for(auto& h : hist)
+				front(h, r);
+			double v = front(tgt, r);
+			o << v << r.calls;
+		});
+		if(fresh.substr(0, 2) != "ok")
+			return fresh;
+		if(after.substr(0, 2) != "ok")
+			return after;
+		return "ok" + fresh.substr(2) + after.substr(2);
+	}
 	throw BadOp();
 }
 }	// namespace hz
